@@ -178,6 +178,11 @@ pub fn run(path: &str) -> i32 {
             }
             return 0;
         }
+        "load-history" => {
+            let ops: Vec<u8> = j.get("ops").and_then(|c| c.as_array()).map(|a| a.iter().filter_map(|x| x.as_u64()).map(|x| x as u8).collect()).unwrap_or_default();
+            crate::c12::replay_load_history(&ops);
+            return 0;
+        }
         "validate-history" => {
             let ops: Vec<u8> = j.get("ops").and_then(|c| c.as_array()).map(|a| a.iter().filter_map(|x| x.as_u64()).map(|x| x as u8).collect()).unwrap_or_default();
             let names: Vec<&str> = ops.iter().map(|o| crate::c13::HIST_OPS[*o as usize]).collect();
